@@ -137,7 +137,13 @@ def _cold(sch, a, base=0):
     m1 = [on_next(1 + a.g[0], a.v[0]), on_next(2 + a.g[0], a.v[1])]
     m1.append(on_completed(3 + a.g[0]) if a.term == 1 else on_error(3 + a.g[0], Injected("e1")))
     m2 = [on_next(1, 50), on_completed(2 + a.g[1])]
-    return sch.create_cold_observable(m1), sch.create_cold_observable(m2)
+    x, y = sch.create_cold_observable(m1), sch.create_cold_observable(m2)
+    # a slow outer sequence and a short inner one: the first inner has ended before the second outer element arrives
+    ms = [on_next(1, a.v[0]), on_next(4 + a.g[0], a.v[1])]
+    ms.append(on_completed(6 + a.g[0] + a.g[1]) if a.term == 1 else on_error(6 + a.g[0] + a.g[1], Injected("e1")))
+    x.slow = sch.create_cold_observable(ms)
+    y.short = sch.create_cold_observable([on_next(1, 60), on_completed(2)])
+    return x, y
 
 
 CREATORS = {
@@ -164,6 +170,17 @@ CREATORS = {
     "op_repeat": lambda x, y, a: x.pipe(ops.repeat(2)),
     "op_repeat_repeat": lambda x, y, a: x.pipe(ops.repeat(2), ops.repeat(2)),
     "op_concat": lambda x, y, a: x.pipe(ops.concat(y)),
+    # two outer elements, each mapped to the short inner sequence y (an inner can end while the outer still has an element to come)
+    "op_merge_all": lambda x, y, a: x.pipe(ops.map(lambda v: y), ops.merge_all()),
+    "op_flat_map": lambda x, y, a: x.pipe(ops.flat_map(lambda v: y)),
+    "op_concat_map": lambda x, y, a: x.pipe(ops.concat_map(lambda v: y)),
+    "op_merge_max1": lambda x, y, a: x.pipe(ops.map(lambda v: y), ops.merge(max_concurrent=1)),
+    "op_switch_latest": lambda x, y, a: x.pipe(ops.map(lambda v: y), ops.switch_latest()),
+    "op_flat_map_latest": lambda x, y, a: x.pipe(ops.flat_map_latest(lambda v: y)),
+    "op_merge_all_gap": lambda x, y, a: x.slow.pipe(ops.map(lambda v: y.short), ops.merge_all()),
+    "op_flat_map_gap": lambda x, y, a: x.slow.pipe(ops.flat_map(lambda v: y.short)),
+    "op_concat_map_gap": lambda x, y, a: x.slow.pipe(ops.concat_map(lambda v: y.short)),
+    "op_switch_latest_gap": lambda x, y, a: x.slow.pipe(ops.map(lambda v: y.short), ops.switch_latest()),
     "op_start_with": lambda x, y, a: x.pipe(ops.start_with(1, 2)),
     "from_iterable": lambda x, y, a: reactivex.from_iterable([1, 2, 3]),
     "of": lambda x, y, a: reactivex.of(1, 2, 3),
